@@ -15,7 +15,7 @@ Which sub-terms may carry a redundant pair is read off `RSParserImpl.y` (`R3.wf`
   neither, so `((a=b))` is no phrase), and only where the grammar has `logic_all` / `logic_no_binary`: as operand of a
   connective, of `¬` and as the body of a quantifier - NOT at the top of an expression, as the body of `D{…|…}`, the
   condition of `R{…|…|…}` or a block of `I{…}` (those are `logic`);
-* nothing else: negations, quantified formulas, predicate calls, atoms, calls, `ℬ(…)`, braces … admit no parentheses. -/
+* nothing else: negations, quantified formulas, predicate calls, atoms, calls, `ℬ(…)`, braces … take no parentheses. -/
 namespace CCVerif.PR
 open CCVerif.Syntax CCVerif.Generated CCVerif.Lexer CCVerif.Parser CCVerif.Printer CCVerif.PP CCVerif.PP3
 
